@@ -392,10 +392,13 @@ func (e *env) fHonest(st *fstmt) (fproof, bool) {
 		e.layoutSeen = true
 		spec, _ := e.fSpecProve(st)
 		sp := got.fields["SOpeningProof"]
-		if sp != nil && sp.fields["W"] != nil && sp.fields["W"].pt != e.g1(spec.s.w) {
+		// W does not depend on gamma when there is a single folded polynomial, W' always does (through z)
+		differs := func(p sproof) bool {
+			return sp.fields["W"].pt != e.g1(p.w) || (sp.fields["WPrime"] != nil && sp.fields["WPrime"].pt != e.g1(p.wp))
+		}
+		if sp != nil && sp.fields["W"] != nil && differs(spec.s) {
 			e.bindCV = true
-			alt, _ := e.fSpecProve(st)
-			if sp.fields["W"].pt != e.g1(alt.s.w) {
+			if alt, _ := e.fSpecProve(st); differs(alt.s) {
 				e.bindCV = false
 			}
 		}
